@@ -34,6 +34,12 @@ Clauses(e) ==
           <<"weighted-mean-of-eigenspectra", e.raised \/ Small(e.mean_dev, Tol)>>,
           <<"precomputed-tapers-same-result", e.raised \/ Small(e.pre_dev, Tol)>>,
           <<"length", e.raised \/ e.len_ok>> }
+    ELSE IF e.ev = "defaultk" THEN
+        \* k left to its default: the tapers pmtm computes itself are those dpss(N, NW) hands to a caller who
+        \* precomputes them with the same default (any NW, half-integer or not)
+        { <<"no-exception", ~e.raised>>,
+          <<"default-number-of-tapers-as-dpss", e.raised \/ e.same_k>>,
+          <<"precomputed-tapers-same-result", e.raised \/ ~e.same_k \/ Small(e.pre_dev, Tol)>> }
     ELSE { <<"unknown-event", FALSE>> }
 
 VARIABLES l, fails
